@@ -37,6 +37,7 @@ type clientView struct {
 	typ       string
 	name      string
 	rev       uint64 // revision number of the client's head and of its ordinary consensus states
+	noContr   bool   // the client state names no XIBC contract at all (never validated): then no proof proves "the configured contract's account"
 	head      uint64
 	delay     uint64
 	heights   [numStates]uint64
@@ -72,6 +73,9 @@ type fact struct {
 func holds(w *world, c *clientView, cl claim) fact {
 	h := c.height(cl.hs)
 	st, ok := c.installed[h]
+	if c.noContr {
+		return fact{"false", "no-contract-configured", st}
+	}
 	if !ok {
 		return fact{"false", "no-root-at-height", -1}
 	}
@@ -347,6 +351,7 @@ func newClient(rng *rand.Rand, typ, cid string) *clientView {
 	if rng.Intn(3) == 0 {
 		c.rev = uint64(1 + rng.Intn(3))
 	}
+	c.noContr = rng.Intn(10) == 0
 	gap := uint64(3 + rng.Intn(50))
 	minHead := c.delay + gap + 5
 	switch rng.Intn(5) {
@@ -389,6 +394,13 @@ func newClient(rng *rand.Rand, typ, cid string) *clientView {
 	return c
 }
 
+func contractOf(w *world, c *clientView) []byte {
+	if c.noContr {
+		return nil
+	}
+	return w.A[:]
+}
+
 // install writes the client state and the consensus states straight into the
 // real client store (no header verification is involved in this property).
 func install(ctx sdk.Context, n *core.Node, w *world, c *clientView) {
@@ -397,7 +409,7 @@ func install(ctx sdk.Context, n *core.Node, w *world, c *clientView) {
 	if c.typ == "eth" {
 		ck.SetClientState(ctx, c.name, &ethtypes.ClientState{
 			Header:          ethtypes.Header{Height: head, Root: w.states[stBoundary].root[:]},
-			ChainId:         1, ContractAddress: w.A[:], TrustingPeriod: 1 << 40, TimeDelay: 0, BlockDelay: c.delay,
+			ChainId:         1, ContractAddress: contractOf(w, c), TrustingPeriod: 1 << 40, TimeDelay: 0, BlockDelay: c.delay,
 		})
 	} else {
 		nv := int(c.delay-1) * 2
@@ -410,7 +422,7 @@ func install(ctx sdk.Context, n *core.Node, w *world, c *clientView) {
 		}
 		ck.SetClientState(ctx, c.name, &bsctypes.ClientState{
 			Header:  bsctypes.Header{Height: head, Root: w.states[stBoundary].root[:]},
-			ChainId: 56, Epoch: 200, BlockInteval: 3, Validators: vals, ContractAddress: w.A[:], TrustingPeriod: 1 << 40,
+			ChainId: 56, Epoch: 200, BlockInteval: 3, Validators: vals, ContractAddress: contractOf(w, c), TrustingPeriod: 1 << 40,
 		})
 	}
 	for h, st := range c.installed {
